@@ -553,6 +553,7 @@ def main(run):
             yield {"mode": "trees", "items": batch}
 
     # ------------------------------------------------------------------ run the trees
+    _dbg("start")
     obs: dict[int, dict] = {}
     broken: list = []
     hangs: list = []
@@ -570,6 +571,7 @@ def main(run):
                 run.inconclusive("worker harness error: " + ob["_harness_error"])
                 print(ob.get("_tb", ""))
                 continue
+            _dbg("batch failed: " + core.jdump({k: v for k, v in ob.items() if k != "stderr"})[:300])
             retry.extend({"mode": "trees", "items": [it]} for it in case["items"])
             continue
         evals += ob["evals"]
